@@ -524,7 +524,11 @@ func buildMSLBuiltins() *builtinTable {
 	tb.mdef("I clamp(I, I, I)", cw(func(ev *evaluator, in []Cell) (Cell, string) {
 		x, lo, hi := in[0].I(), in[1].I(), in[2].I()
 		if lo > hi {
-			return Cell{}, whyMSLClamp
+			// §6.3: "Returns min(max(x, minval), maxval)"; whether the
+			// "undefined if minval > maxval" of the floating-point clamp
+			// (§6.2) extends to the integer one is not certain: the formula
+			// is applied and the occurrence counted
+			ev.info("clamp.int.minval>maxval")
 		}
 		if x < lo {
 			x = lo
@@ -537,7 +541,7 @@ func buildMSLBuiltins() *builtinTable {
 	tb.mdef("U clamp(U, U, U)", cw(func(ev *evaluator, in []Cell) (Cell, string) {
 		x, lo, hi := in[0].U(), in[1].U(), in[2].U()
 		if lo > hi {
-			return Cell{}, whyMSLClamp
+			ev.info("clamp.int.minval>maxval")
 		}
 		if x < lo {
 			x = lo
